@@ -674,10 +674,15 @@ impl AST {
                     ops.push(Op::Render, pos);
                 }
             }
-            TemplatePart::Expression(expr) => {
+            TemplatePart::Expression(mut expr) => {
                 if place_holder {
                     unreachable!();
                 } else {
+                    // Template expressions are parsed out of the format string
+                    // here, after the path rewrite pass over the file's AST has
+                    // run, so relative import and include paths in them have to
+                    // be made absolute now.
+                    Rewriter::new(root).walk_expression(&mut expr);
                     Self::translate_expr(expr, ops, root);
                     ops.push(Op::Render, pos);
                 }
